@@ -69,6 +69,7 @@ type tableDef struct {
 	beforeInsert func(x *sqlExec, d *tableDef, vals []Val) error
 	afterInsert  func(x *sqlExec, d *tableDef, vals []Val) error
 	afterDelete  func(x *sqlExec, d *tableDef, vals []Val) error
+	afterUpdate  func(x *sqlExec, d *tableDef, old, vals []Val) error
 	system       bool // a table of the _system schema (not per bucket, not per ledger)
 }
 
@@ -128,6 +129,13 @@ func txDate(x *sqlExec) (Val, error) {
 }
 
 func emptyJSONObject(*sqlExec) (Val, error) { return jsonVal{map[string]any{}}, nil }
+
+func numStr(v Val) string {
+	if b, ok := v.(*big.Int); ok && b != nil {
+		return b.String()
+	}
+	return fmt.Sprint(v)
+}
 
 func strOf(v Val) string {
 	s, _ := v.(string)
@@ -279,6 +287,14 @@ func transactionsTable() *tableDef {
 			vals[d.colIndex("updated_at")] = vals[d.colIndex("inserted_at")]
 		}
 		return nil
+	}
+	// triggers insert_transaction_metadata_history (date = new.timestamp) / update_transaction_metadata_history
+	// (date = new.updated_at), when AddLedger installed them for the row's ledger
+	d.afterInsert = func(x *sqlExec, d *tableDef, vals []Val) error {
+		return x.metaHistory("transactions", "insert", "insert_transaction_metadata_history", strOf(vals[0]), "txmeta", numStr(d.val(vals, "id")), d.val(vals, "timestamp"), d.val(vals, "metadata"))
+	}
+	d.afterUpdate = func(x *sqlExec, d *tableDef, _, vals []Val) error {
+		return x.metaHistory("transactions", "update", "update_transaction_metadata_history", strOf(vals[0]), "txmeta", numStr(d.val(vals, "id")), d.val(vals, "updated_at"), d.val(vals, "metadata"))
 	}
 	d.toVals = func(k rowKey, row any) ([]Val, error) {
 		t := row.(*ledger.Transaction)
@@ -520,7 +536,57 @@ func accountsTable() *tableDef {
 		return &AcctRow{Address: strOf(d.val(vals, "address")), Metadata: md, FirstUsage: timeOf(d.val(vals, "first_usage")),
 			InsertionDate: timeOf(d.val(vals, "insertion_date")), UpdatedAt: timeOf(d.val(vals, "updated_at"))}, nil
 	}
+	// triggers insert_account_metadata_history / update_account_metadata_history (migration 11), when AddLedger
+	// installed them for the row's ledger
+	d.afterInsert = func(x *sqlExec, d *tableDef, vals []Val) error {
+		return x.metaHistory("accounts", "insert", "insert_account_metadata_history", strOf(vals[0]), "acctmeta", strOf(d.val(vals, "address")), d.val(vals, "insertion_date"), d.val(vals, "metadata"))
+	}
+	d.afterUpdate = func(x *sqlExec, d *tableDef, _, vals []Val) error {
+		return x.metaHistory("accounts", "update", "update_account_metadata_history", strOf(vals[0]), "acctmeta", strOf(d.val(vals, "address")), d.val(vals, "updated_at"), d.val(vals, "metadata"))
+	}
 	return d
+}
+
+// MetaRev is one row of accounts_metadata / transactions_metadata (the metadata history tables).
+type MetaRev struct {
+	ID       string // account address / transaction id
+	Revision int
+	Date     gotime.Time
+	Metadata map[string]string
+}
+
+func metaRevKey(table, ledgerName, id string, rev int) rowKey {
+	return rowKey{table, ledgerName, fmt.Sprintf("%s\x00%08d", id, rev)}
+}
+
+// metaHistory is the Go rendering of the four metadata-history trigger functions: it fires only if AddLedger
+// registered the trigger for that ledger, and appends revision max+1 (1 on insert) with the row's new metadata.
+func (x *sqlExec) metaHistory(table, event, proc, ledgerName, histTable, id string, date, metadata Val) error {
+	lr := x.ledgerRow(ledgerName)
+	if lr == nil || !x.firesProc(lr.Bucket, table, "after", event, ledgerName, proc) {
+		return nil
+	}
+	rev := 1
+	if event == "update" {
+		for _, k := range x.sess.scan(histTable, ledgerName) {
+			if strings.HasPrefix(k.Key, id+"\x00") {
+				if m, ok := x.get(k).(*MetaRev); ok && m.Revision >= rev {
+					rev = m.Revision + 1
+				}
+			}
+		}
+	}
+	md, err := metaFromJSON(metadata)
+	if err != nil {
+		return err
+	}
+	var at gotime.Time
+	if t, ok := date.(gotime.Time); ok {
+		at = t
+	}
+	x.put(metaRevKey(histTable, ledgerName, id, rev), &MetaRev{ID: id, Revision: rev, Date: at, Metadata: md})
+	x.w.probe("metadata_history_revision:" + histTable)
+	return nil
 }
 
 // ---- schemas ----
